@@ -614,6 +614,12 @@ class Path:
                 if st2 != "unknown":
                     status, backend = st2, "cvc5"
                     det = f"{detail} {det3}".strip()
+            if status == "unknown" and (self.ex.deadline is None or time.time() + 70 < self.ex.deadline):
+                # wall-clock limits are hit early on a busy machine: one more attempt with six times the budget
+                st3, det4, wit3 = smt_prove(self.zc, t, 6 * Z3_TIMEOUT_MS)
+                if st3 != "unknown":
+                    status, backend, wit = st3, "z3", wit3
+                    det = f"{detail} {det4} (second attempt, 6x budget)".strip()
         ob = Obligation(name, " ".join(self.sig), status, backend, time.time() - t0, det, wit, kind)
         self.ex.record(ob)
         return status == "proved"
